@@ -604,6 +604,89 @@ theorem grid_search_exact2 (bt : BoxType) (B : Box) (rc : Rat) (pos : Nat → V3
     · exact hclose
     · exact himg
 
+/-- every box type: the connection vector differs from the plain difference by a lattice vector (the zero one for the open type) -/
+theorem mic_is_image_any (bt : BoxType) (B : Box) (hdiag : bt = .ortho → B.isDiagonal = true) (ri rj : V3) :
+    ∃ k1 k2 k3 : Int, rj - ri = mic bt B ri rj + B.lattice k1 k2 k3 := by
+  by_cases hbt : bt = .open_
+  · subst hbt
+    refine ⟨0, 0, 0, ?_⟩
+    simp only [mic, micOpen]
+    apply V3.ext3 <;> simp [Box.lattice]
+  · exact mic_is_image bt B hbt hdiag ri rj
+
+/-- **the grid search on real coordinates is exact, open boxes included.**  (`NBListGrid` builds its cells from the stored box matrix whatever the box
+    type; with the open type the closeness test is the plain distance and the wrap of the cell indices only adds cells to look into.)  For every box with non-zero determinant (orthorhombic or
+    triclinic, however skewed), every positive cutoff — larger than the box in some directions or not —, the cell counts
+    and cell lists `NBListGrid` constructs, and every bead list and coordinates: the pairs reported by the grid search are
+    exactly (a permutation of) the pairs of the O(N²) search, each unordered pair within the cutoff once. -/
+theorem grid_search_exact_any (bt : BoxType) (B : Box) (rc : Rat) (pos : Nat → V3)
+    (hdiag : bt = .ortho → B.isDiagonal = true) (hdet : B.det ≠ 0) (hrc : 0 < rc) (beads : List Nat) :
+    (gridPairs (fun i => cellOf B (cellCounts B rc) (pos i)) (fun i => cellsFor (cellCounts B rc) (cellOf B (cellCounts B rc) (pos i)))
+      (closeB bt B rc pos) beads).Perm (brutePairs (closeB bt B rc pos) beads) := by
+  obtain ⟨na, nb, nc⟩ := normals_pos B hdet
+  have sa := cellCount_spec (B.det * B.det / (V3.cross B.b B.c).normSq) rc hrc
+  have sb := cellCount_spec (B.det * B.det / (V3.cross B.c B.a).normSq) rc hrc
+  have sc := cellCount_spec (B.det * B.det / (V3.cross B.a B.b).normSq) rc hrc
+  have hNs : cellCounts B rc = (cellCount (B.det * B.det / (V3.cross B.b B.c).normSq) rc,
+      cellCount (B.det * B.det / (V3.cross B.c B.a).normSq) rc, cellCount (B.det * B.det / (V3.cross B.a B.b).normSq) rc) := by
+    simp [cellCounts, heightsSq]
+  apply grid_exact
+  · intro b
+    apply cellsFor_nodup <;> rw [hNs]
+    · exact sa.1
+    · exact sb.1
+    · exact sc.1
+  · intro e b hclose
+    simp only [closeB, decide_eq_true_eq] at hclose
+    obtain ⟨k1, k2, k3, himg⟩ := mic_is_image_any bt B hdiag (pos e) (pos b)
+    apply neighbour_cell_listed B (cellCounts B rc) rc (pos e) (pos b) (mic bt B (pos e) (pos b)) k1 k2 k3 hdet hrc
+    · rw [hNs]; exact sa.1
+    · rw [hNs]; exact sb.1
+    · rw [hNs]; exact sc.1
+    · rw [hNs]; exact sa.2.imp id fun h => height_form _ _ _ _ na h
+    · rw [hNs]; exact sb.2.imp id fun h => height_form _ _ _ _ nb h
+    · rw [hNs]; exact sc.2.imp id fun h => height_form _ _ _ _ nc h
+    · exact hclose
+    · exact himg
+
+/-- two lists, open boxes included -/
+theorem grid_search_exact2_any (bt : BoxType) (B : Box) (rc : Rat) (pos : Nat → V3)
+    (hdiag : bt = .ortho → B.isDiagonal = true) (hdet : B.det ≠ 0) (hrc : 0 < rc) (l1 l2 : List Nat) :
+    (gridPairs2 (fun i => cellOf B (cellCounts B rc) (pos i)) (fun i => cellsFor (cellCounts B rc) (cellOf B (cellCounts B rc) (pos i)))
+      (closeB bt B rc pos) l1 l2).Perm (brutePairs2 (closeB bt B rc pos) l1 l2) := by
+  obtain ⟨na, nb, nc⟩ := normals_pos B hdet
+  have sa := cellCount_spec (B.det * B.det / (V3.cross B.b B.c).normSq) rc hrc
+  have sb := cellCount_spec (B.det * B.det / (V3.cross B.c B.a).normSq) rc hrc
+  have sc := cellCount_spec (B.det * B.det / (V3.cross B.a B.b).normSq) rc hrc
+  have hNs : cellCounts B rc = (cellCount (B.det * B.det / (V3.cross B.b B.c).normSq) rc,
+      cellCount (B.det * B.det / (V3.cross B.c B.a).normSq) rc, cellCount (B.det * B.det / (V3.cross B.a B.b).normSq) rc) := by
+    simp [cellCounts, heightsSq]
+  apply grid_exact2
+  · intro b
+    apply cellsFor_nodup <;> rw [hNs]
+    · exact sa.1
+    · exact sb.1
+    · exact sc.1
+  · intro e b hclose
+    simp only [closeB, decide_eq_true_eq] at hclose
+    obtain ⟨k1, k2, k3, himg⟩ := mic_is_image_any bt B hdiag (pos e) (pos b)
+    apply neighbour_cell_listed B (cellCounts B rc) rc (pos e) (pos b) (mic bt B (pos e) (pos b)) k1 k2 k3 hdet hrc
+    · rw [hNs]; exact sa.1
+    · rw [hNs]; exact sb.1
+    · rw [hNs]; exact sc.1
+    · rw [hNs]; exact sa.2.imp id fun h => height_form _ _ _ _ na h
+    · rw [hNs]; exact sb.2.imp id fun h => height_form _ _ _ _ nb h
+    · rw [hNs]; exact sc.2.imp id fun h => height_form _ _ _ _ nc h
+    · exact hclose
+    · exact himg
+
+/-! non-vacuity of the open case: open type over a stored box of 2 x 2 x 2 cells, two beads in wrapped-adjacent cells are NOT close (plain distance),
+    two beads in adjacent cells are -/
+example : let B : Box := ⟨⟨2, 0, 0⟩, ⟨0, 2, 0⟩, ⟨0, 0, 2⟩⟩
+    cellCounts B 1 = (2, 2, 2) ∧
+    closeB .open_ B 1 (fun i => if i = 0 then ⟨1/10, 1/10, 1/10⟩ else ⟨19/10, 1/10, 1/10⟩) 0 1 = false ∧
+    closeB .open_ B 1 (fun i => if i = 0 then ⟨9/10, 1/10, 1/10⟩ else ⟨11/10, 1/10, 1/10⟩) 0 1 = true := by decide +kernel
+
 /-! non-vacuity: a skewed triclinic box (det 24), cutoff 1: the hypotheses of `grid_search_exact` hold, there are 2 x 2 x 4 cells,
     and two beads on opposite faces are within the cutoff through the periodic boundary -/
 example : let B : Box := ⟨⟨2, 0, 0⟩, ⟨1, 3, 0⟩, ⟨1, 1, 4⟩⟩
